@@ -238,6 +238,8 @@ def check_cli(system, shapes_n):
                 m.sid = len(mts) + 1
                 for i, tk in enumerate(m.toks):
                     tk['word'] = 'w%d_%d' % (m.sid, i + 1)
+                    if (m.sid + i) % 5 == 0:
+                        tk['pos'] = ['EMPTY', '--', 'VROOT'][(m.sid + i) // 5 % 3]       # default literals as real tags
                 mts.append(m)
     case = {'cli': system, 'n': shapes_n}
 
